@@ -440,6 +440,9 @@ func (r *Run) Finish(rule string) int {
 	if len(r.samples) == 0 {
 		cov["samples"] = []any{"(none recorded)"}
 	}
+	if r.assumptions == nil {
+		r.assumptions = []string{"the harness' own reference code, math/big and crypto/* are trusted; fixture keys were generated by the library under test"}
+	}
 	ev := map[string]any{
 		"property_id": r.Prop, "tier": r.Tier, "seed": r.Seed, "level": r.Level,
 		"coverage": cov, "assumptions": r.assumptions,
